@@ -96,7 +96,7 @@ def cases(draw):
     if announce == "meta" or (not xml and announce in ("bom", "default")
                               and default_encoding is None
                               and draw(st.integers(0, 2)) == 0):
-        mq = draw(st.sampled_from(['"', "'"]))
+        mq = draw(st.sampled_from(['"', "'", '"', "'", ""]))
         mtype = draw(st.sampled_from(["text/html", "text/html",
                                       "application/xhtml+xml"]))
         cs = draw(st.sampled_from(names))
@@ -105,6 +105,9 @@ def cases(draw):
                                    "CONTENT-TYPE"]))
         close = draw(st.sampled_from([">", "/>", " />", " >"]))
         msp = draw(st.sampled_from(["", " "]))
+        if not mq:
+            # unquoted attribute values: no white space inside the value
+            msp = ""
         a1 = "%s=%s%s%s" % (he, mq, ct, mq)
         a2 = "content=%s%s;%scharset=%s%s" % (mq, mtype, msp, cs, mq)
         if draw(st.integers(0, 7)) == 0:
@@ -175,6 +178,9 @@ class Bytes(Part):
         yield "enc_" + case["encoding"]
         if case["meta_order"] == "content-first":
             yield "meta_content_first"
+        if case["meta"] and "=text" in case["meta"].replace(
+                "=application", "=text"):
+            yield "meta_unquoted"
 
     def sample(self, case):
         return {"document": document(case), "encoding": case["encoding"],
